@@ -36,11 +36,13 @@ def same_document(a: str, b: str) -> bool:
 # fixed inputs that reproduce listed findings: (document, first options, target options)
 REPRO_CROSS = {
     "D-55": ("jumps === sentence\n", dict(width=1, semantic=False), dict(width=88, semantic=False)),
+    "D-89": ("Some long text here {% field %}{% /field %} after it\n", dict(width=30, semantic=False), dict(width=80, semantic=False)),
     "D-12": ("why? x1 漢 a fxzzyfgbbge I stop! 42 x1 there.\n", dict(width=25, semantic=True), dict(width=88, semantic=True)),
 }
 
 REPRO_PAIRS = {
     "D-63": ("a \\\\\nb\n", "a \\\\ b\n", dict(width=88, semantic=False)),
+    "D-90": ("the value {'a': {'b': 1}}\nnext line here\n", "the value {'a': {'b': 1}} next line here\n", dict(width=88, semantic=False)),
 }
 
 UNESC = re.compile(r"\\([-+*_=#>`~.)])")
@@ -70,6 +72,15 @@ def classify(kf, rec):
         even_bs_nl = re.compile(r"(?<!\\)(?:\\\\)+\r?\n")
         return c.get("kind") == "relayout" and (bool(even_bs_nl.search(c.get("a", ""))) != bool(even_bs_nl.search(c.get("b", ""))) or
                                                  bool(even_bs_nl.search(c.get("a", ""))))
+    TAG_EDGE = r"(?:%\}|-->|\}\}|#\})[ \t]*\n|\n[ \t>]*(?:\{%|<!--|\{\{|\{#)"
+    if cl == "wrap-created-newline-next-to-tag":
+        # the first pass wrapped right before / after a tag; the second pass then takes that newline for a deliberate one
+        return c.get("kind") == "cross" and bool(re.search(TAG_EDGE, c.get("mid", ""))) and not re.search(TAG_EDGE, c.get("doc", "").strip() + "\n")
+    if cl == "tag-like-line-end-keeps-newline":
+        # a line that ends in the closing characters of a tag without being one (a dict literal, an arrow) keeps its newline
+        ends = re.compile(r"(?:%\}|-->|\}\}|#\})[ \t]*\n")
+        return c.get("kind") == "relayout" and (bool(ends.search(c.get("a", ""))) != bool(ends.search(c.get("b", "")))) and \
+            not re.search(r"\{%.*?%\}|\{#.*?#\}|\{\{.*?\}\}|<!--.*?-->", c.get("a", ""), flags=re.S)
     if cl == "line-start-escape-persists":
         if c.get("kind") != "cross":
             return False
